@@ -1,8 +1,451 @@
-//! C18 — not built yet (stub).
+//! C18 — runtime stack algebra: exhaustive operation sequences executed on the real frame
+//! types and compared with an abstract stack-of-maps model.
+//!
+//! non-trivial rule: the sequence contains at least one push (a layered scope exists).
 use crate::ctx::Ctx;
+use crate::mon::guard;
+use crate::rng::{hash_combine, hash_str};
+use crate::val::{dump_view, RVal};
+use liquid_core::model::{Object, Scalar};
+use liquid_core::runtime::{GlobalFrame, RuntimeBuilder, SandboxedStackFrame, StackFrame};
+use liquid_core::Runtime;
+use serde_json::json;
+use std::collections::BTreeMap;
 
-pub fn run(_ctx: &mut Ctx) {}
+#[derive(Clone, Copy, Debug, PartialEq, Eq)]
+pub enum Op {
+    /// index into MAPS
+    PushPlain(usize),
+    PushSandbox(usize),
+    PushGlobal,
+    Pop,
+    /// (name index, value index)
+    Assign(usize, usize),
+    Counter(usize, usize),
+}
 
-pub fn replay(_j: &serde_json::Value) -> bool {
-    false
+const NAMES: [&str; 2] = ["x", "y"];
+
+fn obj(z: i64) -> RVal {
+    RVal::Object(vec![("z".to_string(), RVal::Int(z))])
+}
+
+/// the value an entry of a pushed map takes: 0 = absent, 1 = scalar, 2 = object
+fn map_value(kind: usize, name: usize) -> Option<RVal> {
+    match kind {
+        0 => None,
+        1 => Some(RVal::Int(1 + name as i64)),
+        _ => Some(obj(5 + name as i64)),
+    }
+}
+
+type Map = BTreeMap<String, RVal>;
+
+/// all 9 maps over {x, y} with values in {absent, scalar, object}
+fn maps() -> Vec<Map> {
+    let mut out = Vec::new();
+    for kx in 0..3 {
+        for ky in 0..3 {
+            let mut m = Map::new();
+            if let Some(v) = map_value(kx, 0) {
+                m.insert("x".into(), v);
+            }
+            if let Some(v) = map_value(ky, 1) {
+                m.insert("y".into(), v);
+            }
+            out.push(m);
+        }
+    }
+    out
+}
+
+fn assign_value(i: usize) -> RVal {
+    if i == 0 {
+        RVal::Str("g".into())
+    } else {
+        obj(70)
+    }
+}
+fn counter_value(i: usize) -> RVal {
+    RVal::Int(10 + i as i64)
+}
+
+pub fn all_ops() -> Vec<Op> {
+    let mut v = Vec::new();
+    for i in 0..9 {
+        v.push(Op::PushPlain(i));
+    }
+    for i in 0..9 {
+        v.push(Op::PushSandbox(i));
+    }
+    v.push(Op::PushGlobal);
+    v.push(Op::Pop);
+    for n in 0..2 {
+        for val in 0..2 {
+            v.push(Op::Assign(n, val));
+        }
+    }
+    for n in 0..2 {
+        for val in 0..2 {
+            v.push(Op::Counter(n, val));
+        }
+    }
+    v
+}
+
+// ---------------- abstract model ----------------
+
+#[derive(Clone, Debug)]
+enum Frame {
+    Plain(Map),
+    Sandbox(Map),
+    Global(Map),
+}
+
+#[derive(Clone, Debug)]
+struct Model {
+    counters: Map,
+    data: Map,
+    global: Map,
+    stack: Vec<Frame>,
+}
+
+fn find_in(m: &Map, path: &[&str]) -> Option<RVal> {
+    let mut cur = m.get(path[0])?.clone();
+    for seg in &path[1..] {
+        cur = match cur {
+            RVal::Object(kv) => kv.iter().find(|(k, _)| k == seg).map(|(_, v)| v.clone())?,
+            _ => return None,
+        };
+    }
+    Some(cur)
+}
+
+impl Model {
+    fn new(caller: &Map) -> Model {
+        Model {
+            counters: Map::new(),
+            data: caller.clone(),
+            global: Map::new(),
+            stack: Vec::new(),
+        }
+    }
+    fn lookup(&self, path: &[&str]) -> Option<RVal> {
+        for f in self.stack.iter().rev() {
+            match f {
+                Frame::Plain(m) | Frame::Global(m) => {
+                    if m.contains_key(path[0]) {
+                        return find_in(m, path);
+                    }
+                }
+                Frame::Sandbox(m) => {
+                    // a sandbox answers for its own names and hides everything below
+                    return if m.contains_key(path[0]) { find_in(m, path) } else { None };
+                }
+            }
+        }
+        for m in [&self.global, &self.data, &self.counters] {
+            if m.contains_key(path[0]) {
+                return find_in(m, path);
+            }
+        }
+        None
+    }
+    fn assign(&mut self, k: &str, v: RVal) {
+        for f in self.stack.iter_mut().rev() {
+            if let Frame::Global(m) = f {
+                m.insert(k.to_string(), v);
+                return;
+            }
+        }
+        self.global.insert(k.to_string(), v);
+    }
+    fn apply(&mut self, op: Op, maps: &[Map]) -> bool {
+        match op {
+            Op::PushPlain(i) => self.stack.push(Frame::Plain(maps[i].clone())),
+            Op::PushSandbox(i) => self.stack.push(Frame::Sandbox(maps[i].clone())),
+            Op::PushGlobal => self.stack.push(Frame::Global(Map::new())),
+            Op::Pop => {
+                if self.stack.pop().is_none() {
+                    return false;
+                }
+            }
+            Op::Assign(n, v) => self.assign(NAMES[n], assign_value(v)),
+            Op::Counter(n, v) => {
+                self.counters.insert(NAMES[n].to_string(), counter_value(v));
+            }
+        }
+        true
+    }
+    fn observe(&self) -> String {
+        let mut out = String::new();
+        let mut roots = Vec::new();
+        for p in PATHS {
+            let v = self.lookup(p).map(|v| v.dump());
+            out.push_str(&format!("{}:T{}G{};", p.join("."), v.as_deref().unwrap_or("~"), v.as_deref().unwrap_or("!")));
+        }
+        for n in NAMES {
+            if self.lookup(&[n]).is_some() {
+                roots.push(n);
+            }
+        }
+        out.push_str(&format!("roots={};", roots.join(",")));
+        for n in NAMES {
+            out.push_str(&format!("idx.{n}={};", self.counters.get(n).map(|v| v.dump()).unwrap_or("~".into())));
+        }
+        out
+    }
+    fn state_hash(&self) -> u64 {
+        hash_str(&format!("{:?}", self))
+    }
+}
+
+const PATHS: [&[&str]; 6] = [&["x"], &["y"], &["x", "z"], &["y", "z"], &["x", "q"], &["y", "q"]];
+
+// ---------------- the real runtime ----------------
+
+fn observe_real(rt: &dyn Runtime) -> String {
+    let mut out = String::new();
+    for p in PATHS {
+        let path: Vec<Scalar> = p.iter().map(|s| Scalar::new(s.to_string())).collect();
+        let t = rt.try_get(&path).map(|v| dump_view(v.as_view()));
+        let g = rt.get(&path).ok().map(|v| dump_view(v.as_view()));
+        out.push_str(&format!("{}:T{}G{};", p.join("."), t.as_deref().unwrap_or("~"), g.as_deref().unwrap_or("!")));
+    }
+    let roots = rt.roots();
+    let mut rs: Vec<String> = roots.iter().map(|k| k.as_str().to_string()).collect();
+    rs.sort();
+    out.push_str(&format!("roots={};", rs.join(",")));
+    for n in NAMES {
+        out.push_str(&format!("idx.{n}={};", rt.get_index(n).map(|v| dump_view(v.as_view())).unwrap_or("~".into())));
+    }
+    out
+}
+
+fn to_object(m: &Map) -> Object {
+    let mut o = Object::new();
+    for (k, v) in m {
+        o.insert(k.clone().into(), v.to_liquid());
+    }
+    o
+}
+
+/// execute ops[*pos..] on `rt`; push = construct the frame over `rt` and recurse, pop = return.
+/// When the ops are exhausted the observation is taken on the then-current top frame.
+/// Returns Some(observation) once the end was reached (propagated up through the recursion).
+fn exec(rt: &dyn Runtime, ops: &[Op], pos: &mut usize, objs: &[Object], depth: usize) -> Option<String> {
+    while *pos < ops.len() {
+        let op = ops[*pos];
+        *pos += 1;
+        match op {
+            Op::PushPlain(i) => {
+                let frame = StackFrame::new(rt, &objs[i]);
+                if let Some(o) = exec(&frame, ops, pos, objs, depth + 1) {
+                    return Some(o);
+                }
+            }
+            Op::PushSandbox(i) => {
+                let frame = SandboxedStackFrame::new(rt, &objs[i]);
+                if let Some(o) = exec(&frame, ops, pos, objs, depth + 1) {
+                    return Some(o);
+                }
+            }
+            Op::PushGlobal => {
+                let frame = GlobalFrame::new(rt);
+                if let Some(o) = exec(&frame, ops, pos, objs, depth + 1) {
+                    return Some(o);
+                }
+            }
+            Op::Pop => {
+                // depth 0 pops are pruned by the enumerator
+                return None;
+            }
+            Op::Assign(n, v) => {
+                rt.set_global(NAMES[n].into(), assign_value(v).to_liquid());
+            }
+            Op::Counter(n, v) => {
+                rt.set_index(NAMES[n].into(), counter_value(v).to_liquid());
+            }
+        }
+    }
+    Some(observe_real(rt))
+}
+
+fn run_real(ops: &[Op], caller: Option<&Object>, objs: &[Object]) -> Result<String, crate::mon::Panic> {
+    guard(|| {
+        let mut pos = 0;
+        match caller {
+            Some(c) => {
+                let rt = RuntimeBuilder::new().set_globals(c).build();
+                exec(&rt, ops, &mut pos, objs, 0).expect("observation")
+            }
+            None => {
+                let rt = RuntimeBuilder::new().build();
+                exec(&rt, ops, &mut pos, objs, 0).expect("observation")
+            }
+        }
+    })
+}
+
+fn ops_json(ops: &[Op], with_caller: bool) -> serde_json::Value {
+    json!({"kind": "stack-ops", "with_caller_data": with_caller, "ops": ops.iter().map(|o| format!("{o:?}")).collect::<Vec<_>>()})
+}
+
+fn parse_op(s: &str) -> Option<Op> {
+    let num = |s: &str| -> Vec<usize> { s.split(|c: char| !c.is_ascii_digit()).filter(|t| !t.is_empty()).filter_map(|t| t.parse().ok()).collect() };
+    let n = num(s);
+    Some(if s.starts_with("PushPlain") {
+        Op::PushPlain(n[0])
+    } else if s.starts_with("PushSandbox") {
+        Op::PushSandbox(n[0])
+    } else if s.starts_with("PushGlobal") {
+        Op::PushGlobal
+    } else if s.starts_with("Pop") {
+        Op::Pop
+    } else if s.starts_with("Assign") {
+        Op::Assign(n[0], n[1])
+    } else if s.starts_with("Counter") {
+        Op::Counter(n[0], n[1])
+    } else {
+        return None;
+    })
+}
+
+fn caller_map() -> Map {
+    let mut m = Map::new();
+    m.insert("x".into(), RVal::Int(100));
+    m
+}
+
+/// check one sequence; returns (model state hash path) or violation
+fn check_seq(ops: &[Op], with_caller: bool, maps: &[Map], objs: &[Object], caller_obj: &Object) -> Result<(String, Vec<u64>), (String, String)> {
+    let cm = if with_caller { caller_map() } else { Map::new() };
+    let mut model = Model::new(&cm);
+    let mut hashes = vec![model.state_hash()];
+    for &op in ops {
+        model.apply(op, maps);
+        hashes.push(model.state_hash());
+    }
+    let want = model.observe();
+    match run_real(ops, if with_caller { Some(caller_obj) } else { None }, objs) {
+        Err(p) => Err((p.key(), format!("runtime panicked at {}: {}", p.site(), p.msg))),
+        Ok(got) => {
+            if got != want {
+                // name the clause that failed
+                let key = if got.split(';').zip(want.split(';')).any(|(g, w)| g != w && g.starts_with("roots=")) {
+                    "roots-differ-from-model"
+                } else if got.split(';').any(|f| {
+                    // get/try_get disagreement inside the real observation
+                    f.contains(":T") && {
+                        let t = f.split(":T").nth(1).unwrap_or("");
+                        let (tv, gv) = t.split_once('G').unwrap_or((t, ""));
+                        (tv == "~") != (gv == "!") || (tv != "~" && tv != gv)
+                    }
+                }) {
+                    "get-and-try_get-disagree"
+                } else if got.split(';').zip(want.split(';')).any(|(g, w)| g != w && g.starts_with("idx.")) {
+                    "counters-differ-from-model"
+                } else {
+                    "lookup-differs-from-model"
+                };
+                Err((key.to_string(), format!("after {:?} (caller data: {}): runtime says {} but the stack-of-maps model says {}", ops, with_caller, got, want)))
+            } else {
+                Ok((got, hashes))
+            }
+        }
+    }
+}
+
+pub fn run(ctx: &mut Ctx) {
+    ctx.start_watchdog(120);
+    let maps = maps();
+    let objs: Vec<Object> = maps.iter().map(to_object).collect();
+    let caller_obj = to_object(&caller_map());
+    let ops_all = all_ops();
+    let n = ops_all.len();
+    let max_len = ctx.scale(4usize, 5usize);
+    let mut seq_counter: u64 = 0;
+    for len in 0..=max_len {
+        let total = (n as u64).pow(len as u32);
+        let mut idx = vec![0usize; len];
+        for _ in 0..total {
+            // prune sequences that pop an empty (pushed) stack
+            let mut depth = 0i32;
+            let mut valid = true;
+            let mut has_push = false;
+            for &i in &idx {
+                match ops_all[i] {
+                    Op::Pop => {
+                        depth -= 1;
+                        if depth < 0 {
+                            valid = false;
+                            break;
+                        }
+                    }
+                    Op::PushPlain(_) | Op::PushSandbox(_) | Op::PushGlobal => {
+                        depth += 1;
+                        has_push = true;
+                    }
+                    _ => {}
+                }
+            }
+            if valid {
+                seq_counter += 1;
+                if ctx.mine_idx(seq_counter) {
+                    let ops: Vec<Op> = idx.iter().map(|&i| ops_all[i]).collect();
+                    for with_caller in [false, true] {
+                        let h = hash_combine(hash_str(&format!("{ops:?}")), with_caller as u64);
+                        if ctx.evaluations % 256 == 0 {
+                            ctx.set_progress(&ops_json(&ops, with_caller).to_string());
+                        }
+                        let r = check_seq(&ops, with_caller, &maps, &objs, &caller_obj);
+                        ctx.record(h, has_push);
+                        ctx.add("observations", (PATHS.len() * 2 + 1 + 2) as u64);
+                        match r {
+                            Ok((obs, hashes)) => {
+                                for w in hashes.windows(2) {
+                                    ctx.set_insert("abstract_transitions", hash_combine(w[0], w[1]));
+                                }
+                                ctx.set_insert("abstract_states", *hashes.last().unwrap());
+                                ctx.set_insert("distinct_observations", hash_str(&obs));
+                                ctx.sample(|| json!({"ops": ops.iter().map(|o| format!("{o:?}")).collect::<Vec<_>>(), "with_caller_data": with_caller, "observed": obs}));
+                            }
+                            Err((key, what)) => {
+                                ctx.violation(&key, &what, || ops_json(&ops, with_caller));
+                            }
+                        }
+                    }
+                }
+            }
+            for k in (0..len).rev() {
+                idx[k] += 1;
+                if idx[k] < n {
+                    break;
+                }
+                idx[k] = 0;
+            }
+        }
+        ctx.count(&format!("lengths-enumerated-exhaustively:{len}"));
+    }
+    ctx.extra.insert("max_sequence_length".into(), json!(max_len));
+    ctx.extra.insert("operations".into(), json!(n));
+}
+
+pub fn replay(j: &serde_json::Value) -> bool {
+    let ops: Vec<Op> = j["ops"].as_array().map(|a| a.iter().filter_map(|s| parse_op(s.as_str().unwrap_or(""))).collect()).unwrap_or_default();
+    let with_caller = j["with_caller_data"].as_bool().unwrap_or(false);
+    let maps = maps();
+    let objs: Vec<Object> = maps.iter().map(to_object).collect();
+    let caller_obj = to_object(&caller_map());
+    println!("ops={ops:?} with_caller_data={with_caller}");
+    match check_seq(&ops, with_caller, &maps, &objs, &caller_obj) {
+        Ok((obs, _)) => {
+            println!("runtime and model agree: {obs}");
+            false
+        }
+        Err((k, w)) => {
+            println!("VIOLATED {k}: {w}");
+            true
+        }
+    }
 }
